@@ -99,6 +99,10 @@ def diff_class(t1, t2):
 
 def run_case(idx, rng, tier, ctx):
     gates = gates_for(idx)
+    gates.update(wflab.slice_requirements(ENTRIES, rng))
+    if rng.random() < 0.25:
+        gates['pflags'].pop('kinds_module', None)      # programs with literal kinds (no kinds module, no unused import)
+    gates['mixed_case'] = rng.random() < 0.35
     wc = wflab.make_case(rng, idx, gates)
     limit = 3 if tier == 'quick' else 6
     counters, feats = {}, set(wc.features)
